@@ -122,6 +122,7 @@ func workC16(w *run.W) {
 		outcomes := map[string]bool{}
 		for _, h := range hcache[pr.n] {
 			fb := pr.build()
+			w.Touch() // a large corpus file with hundreds of histories may take longer than the watchdog period as a whole
 			w.Count("histories", 1)
 			for k := 0; k < len(h); k++ {
 				got := impl.Access(&fb.J, h[k]).String()
